@@ -1,9 +1,10 @@
-\* exhaustive (quick): three nodes, log of up to 2 entries, one crash + restart; repaired leader branch
+\* exhaustive (thorough): log of up to 4 entries (lastProcessed moves BACK: create, create, delete, line of the
+\* older session), no faults beyond the lag of the FSMs
 SPECIFICATION Spec
 CONSTANTS
     Nodes = {1, 2, 3}
-    MaxLog = 2
-    MaxCrash = 1
+    MaxLog = 4
+    MaxCrash = 0
     MaxSpurious = 0
     MaxHops = 2
     FixedLeaderLag = TRUE
